@@ -11,6 +11,12 @@ CHECKS = {
  "C19": dict(cat="exploration", tech="invariant monitor over the complete source corpus + dynamic confirmation at the builder tap",
    text="Every profile file and abstraction of the source tree is read by an independent scanner and checked against each clause of the layout contract (exhaustive over the finite corpus); one real build per distribution confirms through the `built` tap that every conforming profile had its attachment resolved.",
    note="Trusted: the harness scanner's notion of header/include/block.", ref="5 C19"),
+ "C17": dict(cat="exploration", tech="invariant monitor on the final output of real --full builds (source rule -> built counterpart), task list observed at the tap",
+   text="Every source rule written r+PUx / r+Ux without target is followed into every explored --full configuration (quick: covering set + one per distribution; thorough: all 90, exhaustive) and every statement of every output file is scanned for a surviving unconfined fallback; the tap confirms the fsp builder was registered.",
+   note="Trusted: the harness scanner's reading of file rules (path, access letters, exec mode, target).", ref="5 C17"),
+ "C04": dict(cat="exploration", tech="reference-model monitor at the `prepared` tap: snapshot of the real prepare stage vs an independent manifest model, over configurations x build-directory histories",
+   text="The real prepare stage is run for 12 (quick) / all 60 (thorough, exhaustive) (distribution, ABI, version, full) configurations from a clean directory and again on a build directory left by another configuration plus junk; the tap snapshot is compared path by path and byte by byte with what an independent model of the manifests predicts (ignore lists, flattening, configure, full-policy step, overwrite renames/links, drop-ins). A constructed base-name clash must be seen in every run.",
+   note="Trusted: the manifest model in vlib/model.py (documented semantics, written without the project's code); the two full-policy file edits are accepted only in their documented form.", ref="5 C04"),
 }
 REASONS = {}
 props = [json.loads(l) for l in open(os.path.join(V, "properties.jsonl"))]
